@@ -33,8 +33,8 @@ import (
 	"github.com/dappledger/AnnChain/eth/accounts/abi"
 	"github.com/dappledger/AnnChain/eth/common"
 	ecore "github.com/dappledger/AnnChain/eth/core"
-	"github.com/dappledger/AnnChain/eth/core/vm"
 	etypes "github.com/dappledger/AnnChain/eth/core/types"
+	"github.com/dappledger/AnnChain/eth/core/vm"
 	ecrypto "github.com/dappledger/AnnChain/eth/crypto"
 	"github.com/dappledger/AnnChain/eth/rlp"
 	"github.com/dappledger/AnnChain/gemmill/blockchain"
@@ -657,6 +657,17 @@ func runCase(base string, c Case, x *h.Ctx) {
 		}
 	}
 	r2 := child(dir, c, c.Target+3, "", "C06_NODE")
+	if r2.exit != 0 && r2.stalled && panicLine(r2.out) == "" && r2.fatal == "" {
+		// "no progress within 50 s" is a wall-clock verdict: a node that is merely slow (loaded
+		// machine) gets there when started again, a node that is stuck stays stuck
+		for k, v := range r2.blocks {
+			if _, ok := before[k]; !ok {
+				before[k] = v
+			}
+		}
+		x.Label("recovery-run-repeated-after-a-slow-start")
+		r2 = child(dir, c, c.Target+3, "", "C06_NODE")
+	}
 	if r2.exit != 0 {
 		judgeRecoveryFailure(x, c, r2, site, "restart")
 		return
